@@ -120,6 +120,8 @@ pub fn worker_main(a: WorkerArgs) -> i32 {
     let mut rep = Report::default();
     let mut last_flush = Instant::now();
     let mut violations = 0u32;
+    let mut known_seen = 0u32;
+    let known = load_known_findings();
     let mut r = a.start;
     let mut since_flush = 0u64;
     let flush = |rep: &mut Report, sig_file: &mut Option<std::fs::File>, upto: u64| {
@@ -141,7 +143,19 @@ pub fn worker_main(a: WorkerArgs) -> i32 {
         write_progress(r);
         let out = props::run_index(&a.prop, &a.tier, a.seed, r, &budget, &samples, &mut rep);
         if let Some((sc, v)) = out {
-            violations += 1;
+            // a listed (open) known finding does not stop the search for other violations
+            let probe = replay_json(&sc, &v, false, 0);
+            let is_known = match_known(&known, &probe).is_some();
+            if is_known {
+                known_seen += 1;
+                if known_seen > 4 {
+                    since_flush += 1;
+                    r += a.step;
+                    continue;
+                }
+            } else {
+                violations += 1;
+            }
             // minimise before reporting
             let judge = |s: &Scenario| {
                 write_progress(r);
@@ -408,10 +422,10 @@ pub fn run_check(a: &CheckArgs) -> CheckResult {
                     "V " => {
                         if let Ok(j) = json::parse(body) {
                             if let Some(what) = match_known(&known, &j) {
-                                res.known.push(format!(
-                                    "KNOWN-FINDING: property={} {}",
-                                    a.prop, what
-                                ));
+                                let line = format!("KNOWN-FINDING: property={} {}", a.prop, what);
+                                if !res.known.contains(&line) {
+                                    res.known.push(line);
+                                }
                             } else if res.violations.len() < 24 {
                                 res.violations.push(j);
                             }
